@@ -28,6 +28,28 @@ use std::sync::Arc;
 use std::time::Duration;
 
 const WIDE_Q: &str = "SELECT * FROM ks1.wide WHERE w = ";
+/// One column of type vector<float, 5> (a custom type in CQL v4), read through the
+/// element iterator with nth()/skip.
+const VEC_Q: &str = "SELECT vec FROM ks1.vecs WHERE w = ";
+const VEC_CLASS: &str = "org.apache.cassandra.db.marshal.VectorType(org.apache.cassandra.db.marshal.FloatType, 5)";
+
+fn vec_col() -> ColSpec {
+    let mut class = W::new();
+    class.string(VEC_CLASS);
+    col("ks1", "vecs", "vec", CType::Raw(0x0000, class.buf))
+}
+
+fn vec_rows() -> Vec<Vec<Cell>> {
+    (0..4)
+        .map(|r| {
+            let mut b = Vec::new();
+            for k in 0..5 {
+                b.extend_from_slice(&((r * 10 + k + 1) as f32).to_be_bytes());
+            }
+            vec![Cell::Blob(b)]
+        })
+        .collect()
+}
 const ERR_Q: &str = "SELECT v FROM ks1.t1 WHERE e = ";
 const DDL_Q: &str = "CREATE TABLE ks1.created (a int PRIMARY KEY) -- n = ";
 const TQ_SELECT: &str = "SELECT v FROM kst.tt WHERE pk = ? AND m = ?";
@@ -301,7 +323,19 @@ impl Script for C08Script {
                             col("ks1", "wide", &format!("c{i}"), CType::Raw(0x0000, w2.buf))
                         })
                         .collect();
-                    let body = wire::body_rows(&cols, &[], &Default::default());
+                    // Two rows of arbitrary cells, so that values of the fuzzed types are
+                    // decoded too (whatever the type, a cell is just [bytes]).
+                    let rows: Vec<Vec<Cell>> = (0..2)
+                        .map(|_| {
+                            (0..cols.len())
+                                .map(|_| {
+                                    let n = [0usize, 4, 8, 16, 20, 33][tape::choose("c08:ct_cell_len", 6) as usize];
+                                    Cell::Blob((0..n).map(|k| (k as u8).wrapping_mul(7).wrapping_add(1)).collect())
+                                })
+                                .collect()
+                        })
+                        .collect();
+                    let body = wire::body_rows(&cols, &rows, &Default::default());
                     w.fault(world::Fault::Corrupt);
                     crate::runner::note(&format!("custom type strings {:?}", types.iter().map(|t| t.chars().take(120).collect::<String>()).collect::<Vec<_>>()));
                     return Reply::Raw {
@@ -336,6 +370,9 @@ impl Script for C08Script {
     fn rows_for(&mut self, _w: &mut World, rq: &ReqInfo, stmt: &StmtDef) -> Vec<Vec<Cell>> {
         if stmt.shape == WIDE_Q {
             return wide_rows();
+        }
+        if stmt.shape == VEC_Q {
+            return vec_rows();
         }
         crate::cluster::default_rows(stmt, rq.marker)
     }
@@ -563,6 +600,22 @@ pub fn run(req: &RunRequest) -> Value {
             bind_cols: vec![],
             pk_indexes: vec![],
             result_cols: wide_cols(),
+            marker_bind: None,
+            schema_version: 0,
+            id_version: 0,
+        });
+        cluster.keyspaces[0].tables.push(TableDef {
+            name: "vecs".into(),
+            partitioner: None,
+        });
+        cluster.catalog.push(StmtDef {
+            shape: VEC_Q.into(),
+            ks: "ks1".into(),
+            table: "vecs".into(),
+            kind: StmtKind::Select,
+            bind_cols: vec![],
+            pk_indexes: vec![],
+            result_cols: vec![vec_col()],
             marker_bind: None,
             schema_version: 0,
             id_version: 0,
@@ -861,6 +914,46 @@ async fn main(plan: Plan) -> Outcome {
             }
         }
     }
+    // S4c: a vector<float, 5> column through the element iterator: nth(n) on row n, then
+    // the rest (the fixed-size fast path skips bytes without decoding).
+    if let Some(r) = step(&mut out, "vector", session.query_unpaged(format!("{VEC_Q}1"), ())).await {
+        let decoded: Result<Vec<(Option<f32>, usize)>, String> = (|| {
+            let qr = r.map_err(|e| e.to_string())?;
+            let rr = qr.into_rows_result().map_err(|e| e.to_string())?;
+            let mut v = Vec::new();
+            for (n, row) in rr
+                .rows::<(scylla::deserialize::value::VectorIterator<f32>,)>()
+                .map_err(|e| e.to_string())?
+                .enumerate()
+            {
+                let (mut it,) = row.map_err(|e| e.to_string())?;
+                let x = match it.nth(n % 6) {
+                    Some(x) => Some(x.map_err(|e| e.to_string())?),
+                    None => None,
+                };
+                let mut rest = 0usize;
+                for y in it.by_ref() {
+                    y.map_err(|e| e.to_string())?;
+                    rest += 1;
+                    if rest > ROW_CAP {
+                        break;
+                    }
+                }
+                v.push((x, rest));
+                if v.len() > ROW_CAP {
+                    break;
+                }
+            }
+            Ok(v)
+        })();
+        if clean {
+            let want: Vec<(Option<f32>, usize)> = (0..4).map(|r| (Some((r * 10 + r % 6 + 1) as f32), 5 - r % 6 - 1)).collect();
+            match decoded {
+                Ok(v) if v == want => out.count("vector_nth_equal", 1),
+                other => out.violation("c08.roundtrip", format!("vector column through nth(): got {other:?}, expected {want:?}")),
+            }
+        }
+    }
     // S5: paged iteration of the wide rows (page size 1).
     {
         let mut st = Statement::new(format!("{WIDE_Q}2"));
@@ -1105,7 +1198,10 @@ fn fuzz_custom_type() -> String {
             4 => format!("{pre}TupleType({},{})", gen_type(depth - 1), gen_type(depth - 1)),
             5 => format!("{pre}FrozenType({})", gen_type(depth - 1)),
             6 => format!("{pre}ReversedType({})", gen_type(depth - 1)),
-            7 => format!("{pre}VectorType({}, {})", gen_type(depth - 1), tape::choose("c08:ct_dim", 5)),
+            7 => {
+                const DIMS: [&str; 12] = ["0", "1", "2", "3", "4", "255", "65535", "65536", "4294967295", "4294967296", "18446744073709551616", "-1"];
+                format!("{pre}VectorType({}, {})", gen_type(depth - 1), DIMS[tape::choose("c08:ct_dim", DIMS.len() as u64) as usize])
+            }
             _ => {
                 let names = ["udt", "a", "ab", "na\u{e9}", "\u{4e16}\u{754c}", "x_y"];
                 // A token in a hex position: the hex encoding of a name, or (1 in 2) raw
@@ -1128,7 +1224,7 @@ fn fuzz_custom_type() -> String {
     let mut s = match tape::choose("c08:ct_shape", 8) {
         // Deep nesting of the textual form (the string is limited to 65535 bytes).
         0 => {
-            let d = [50usize, 500, 3000, 7000][tape::choose("c08:ct_deep", 4) as usize];
+            let d = [50usize, 500, 3000, 7000, 100, 200][tape::choose("c08:ct_deep", 6) as usize];
             // One wrapper for the whole chain, or a seeded mix of them.
             const WRAP: [(&str, &str); 7] = [
                 ("ListType(", ")"),
@@ -1154,6 +1250,17 @@ fn fuzz_custom_type() -> String {
             t.push_str("Int32Type");
             for c in closes.iter().rev() {
                 t.push_str(c);
+            }
+            t
+        }
+        // A tower of vectors of fixed-size elements: the byte size of one element of the
+        // outer vector is the product of all inner dimensions.
+        1 => {
+            let base = ["UUIDType", "LongType", "Int32Type", "BooleanType", "TimestampType"][tape::choose("c08:ct_vbase", 5) as usize];
+            let mut t = format!("{P}{base}");
+            for _ in 0..tape::range("c08:ct_vtower", 2, 9) {
+                let dim = ["65535", "65535", "255", "2", "4096"][tape::choose("c08:ct_vdim", 5) as usize];
+                t = format!("{P}VectorType({t}, {dim})");
             }
             t
         }
